@@ -105,7 +105,9 @@ func loadEngine(repo, verif string) (*Engine, error) {
 	relaxDefs = e.RecDefs
 	relaxPats = preludeAxiomPats(e.PreludeBase)
 	for _, l := range lem {
-		e.Prelude += l.Statement
+		if l.Axiom {
+			e.Prelude += l.Statement
+		}
 	}
 
 	// contracts
